@@ -277,7 +277,7 @@ def install(I):
         return r.bits[0]
 
     def _clamp_result(I, st, res, a, b, base):
-        if not res.has_top() and I.sym_of(res) is None:
+        if not res.has_top() and (I.sym_of(res) is None or I.sym_of(res) not in st.defs):
             return res
         ra, rb = I.rng_of(st, a), I.rng_of(st, b)
         if not ra or not rb:
@@ -290,8 +290,14 @@ def install(I):
         if lo > hi:
             st.dead = True
             return res
-        if res.aff is not None:
-            return I.tighten(st, res, lo, hi)
+        n = I.sym_of(res)
+        if n is not None and n in st.rng:
+            # the unchecked result was materialised as a symbol: on the Some path it did not wrap
+            I.narrow(st, res, lo, hi)
+            d = st.defs.get(n)
+            if d is not None:
+                st.defs[n] = (d[0], d[1], True)
+            return I.norm(st, res)
         z = min(a.low_zeros(), b.low_zeros()) if base == 'Add' else min(a.w, a.low_zeros() + b.low_zeros())
         return I.fresh_num(st, a.w, 'c' + base.lower(), [(lo, hi)], z, a.signed)
 
@@ -554,7 +560,7 @@ def install(I):
             except Unsupported:
                 outs = None
             if outs is not None and len(outs) == 1 and outs[0].kind == 'ret' and \
-                    not [e for e in outs[0].st.events[n_ev:] if e[0] not in ('icall',)]:
+                    not [e for e in outs[0].st.events[n_ev:] if e[0] not in ('icall', 'iret')]:
                 r = outs[0].val
             else:
                 r = Struct('mapped', [f, x])
